@@ -252,7 +252,7 @@ pub fn run(thorough: bool) -> Vec<Part> {
         return vec![];
     }
     let mut part = Part::new("C15", "header-rules-r", "model_checking");
-    part.assume("(a) Headers::parse_header_line as a transition function: all reachable Headers values x all alphabet lines, to fixpoint (sequences of any length); (b) every letter-case pattern of the 7 recognised names with a supported value; (c) header blocks of <= N lines over the full alphabet and <= M lines over a 12-line sub-alphabet: Headers::try_from vs the rules folded line by line vs the implementation's own line parser folded with the documented ignore rule; (d) Encoding::try_from on all comma lists of <= 3 items over {identity, identity;q=0, *;q=0, gzip, ``, ` `}");
+    part.assume("(a) Headers::parse_header_line as a transition function: all reachable Headers values x all alphabet lines, to fixpoint (sequences of any length); (b) every letter-case pattern of the 7 recognised names with a supported value; (c) header blocks of <= N lines (3 quick, 5 thorough) over the full alphabet and M lines (5 quick, 7 thorough) over a 12-line sub-alphabet: Headers::try_from vs the rules folded line by line vs the implementation's own line parser folded with the documented ignore rule; (d) Encoding::try_from on all comma lists of <= 3 items over {identity, identity;q=0, *;q=0, gzip, ``, ` `}");
     part.assume("only the class of a verdict (applied / ignored / fatal) is compared, never the error variant or message; `Content-Length: +5` is not in the alphabet; whitespace-only arguments of Encoding::try_from called directly are not judged (in header context the value is trimmed first and is then empty = fatal)");
     let all = lines();
     let sys = LineSys { lines: all.clone() };
@@ -360,7 +360,7 @@ pub fn run(thorough: bool) -> Vec<Part> {
     );
     t.record(&mut part, "name-and-value-padding");
     // (c) blocks
-    let n_full = if thorough { 4u32 } else { 3 };
+    let n_full = if thorough { 5u32 } else { 3 };
     let a = all.len() as u64;
     let mut total = 0u64;
     for d in 0..=n_full {
@@ -396,7 +396,7 @@ pub fn run(thorough: bool) -> Vec<Part> {
     t.record(&mut part, "blocks-full-alphabet");
     let sub_idx: Vec<usize> = vec![0, 2, 5, 9, 11, 13, 16, 19, 21, 25, 31, 37];
     let sub: Vec<Vec<u8>> = sub_idx.iter().map(|i| all[*i].clone()).collect();
-    let m = if thorough { 6u32 } else { 5 };
+    let m = if thorough { 7u32 } else { 5 };
     let b = sub.len() as u64;
     let total2 = b.pow(m);
     let t = par_enum(
